@@ -1,5 +1,5 @@
 from .. import facts
-from ..rules import traps, algebra, status, deadcmp
+from ..rules import traps, algebra, status, deadcmp, region
 
 
 def run(ck):
@@ -16,3 +16,4 @@ def run(ck):
     traps.r10_row_weight_constant(ck, P)
     status.r19_13_shortcut_needs_plain_destination(ck, P, 'C12-R12')   # both routes of pixman_composite_trapezoids give the same picture
     deadcmp.r_equality_with_unreachable_value(ck, P, 'C12-R11', floor=300)
+    region.r5_13_box_difference_keeps_its_width(ck, P, 'C12-R13')   # the mask route of pixman_composite_trapezoids keeps the extents' 32 bits
